@@ -340,6 +340,7 @@ var c19Random = &vlib.Check{
 		}
 		sort.Strings(p.Banned)
 		p.BanSplit = vlib.Chance(r, 1, 2) // one option per kind instead of one option for the whole set
+		p.ViaPath = vlib.Chance(r, 1, 3)  // the build is started from the path of the root file (kit.NewJapi), options included
 		return &vlib.Case{Project: p, Params: params}
 	},
 }
@@ -372,6 +373,7 @@ func TestC19(t *testing.T) {
 				p := projects[pi].Clone()
 				p.Banned = sets[si]
 				p.BanSplit = si%2 == 1
+				p.ViaPath = si%3 == 2
 				si++
 				return &vlib.Case{Project: p}
 			}
